@@ -1,5 +1,5 @@
 (* Proofs/C11.v -- segmentation independence at the level of the TCP application layer. *)
-From MS Require Import Proofs.Tactics Proto Spec.AppView Spec.C11.
+From MS Require Import Proofs.Tactics Proofs.Pending Proto Spec.AppView Spec.C11.
 
 (* ---------- ONC-RPC over TCP ---------- *)
 Lemma rpc_parse_app s a b : rpc_parse (rpc_parse s a) b = rpc_parse s (a ++ b).
@@ -14,19 +14,18 @@ Fixpoint rpc_outs (ip : ipaddr) (port : N) (r : rpc_st) (segs : list bytes) : li
 
 Lemma rpc_flow E clk ci ip port :
   ci_ip_dst ci = Some ip -> ci_port_dst ci = Some port ->
-  forall segs st r,
-    tcp_stream E clk ci {| t_smack := st; t_proto := PROTO_RPC_TCP; t_pstate := Some (PRpc r) |} segs
+  forall segs st r pe,
+    tcp_stream E clk ci {| t_smack := st; t_proto := PROTO_RPC_TCP; t_pstate := Some (PRpc r); t_pending := pe |} segs
     = Ok (rpc_outs ip port r segs).
 Proof.
-  intros Hip Hport. induction segs as [|s rest IH]; intros st r; [reflexivity|].
+  intros Hip Hport. induction segs as [|s rest IH]; intros st r pe; [reflexivity|].
   cbn [tcp_stream rpc_outs].
-  unfold proto_repl_tcp at 1. cbn [t_proto].
-  change (PROTO_RPC_TCP =? PROTO_NONE) with false. cbv iota.
+  unfold proto_repl_tcp at 1. rewrite tcp_identify_sticky by (cbn [t_proto]; discriminate).
   unfold dispatch. cbn [t_proto].
   change (PROTO_RPC_TCP =? PROTO_HTTP) with false. change (PROTO_RPC_TCP =? PROTO_STUN) with false.
   change (PROTO_RPC_TCP =? PROTO_SSH) with false. change (PROTO_RPC_TCP =? PROTO_GHOST) with false.
   change (PROTO_RPC_TCP =? PROTO_RPC_TCP) with true. cbv iota.
-  rewrite Hip, Hport. cbn [t_pstate t_smack].
+  rewrite Hip, Hport. cbn [t_pstate t_smack t_pending].
   destruct (rpc_repl_tcp r ip port s) as [r' o]. cbn [bind].
   rewrite IH. cbn [bind]. reflexivity.
 Qed.
@@ -37,14 +36,14 @@ Theorem rpc_stream E clk ci ip port s rest :
   tcp_stream E clk ci tcb_new (s :: rest) = Ok (rpc_outs ip port (rpc_new R_FRAG) (s :: rest)).
 Proof.
   intros Hip Hport Hid. cbn [tcp_stream rpc_outs].
-  unfold proto_repl_tcp at 1. change (t_proto tcb_new =? PROTO_NONE) with true. cbv iota.
-  unfold tcp_first_id in Hid. change (t_smack tcb_new) with BASE_STATE.
-  destruct (search_next (e_proto_tbl E) BASE_STATE s) as [[id st] n]. subst id. cbn [id_of t_proto t_pstate].
+  rewrite proto_repl_tcp_first.
+  unfold tcp_first_id in Hid.
+  destruct (search_next (e_proto_tbl E) BASE_STATE s) as [[id st] n]. subst id. cbv zeta. cbn [id_of t_proto t_pstate].
   unfold dispatch.
   change (PROTO_RPC_TCP =? PROTO_HTTP) with false. change (PROTO_RPC_TCP =? PROTO_STUN) with false.
   change (PROTO_RPC_TCP =? PROTO_SSH) with false. change (PROTO_RPC_TCP =? PROTO_GHOST) with false.
   change (PROTO_RPC_TCP =? PROTO_RPC_TCP) with true. cbv iota.
-  rewrite Hip, Hport. unfold tcb_new. cbn [t_pstate t_smack t_proto].
+  rewrite Hip, Hport. cbn [t_pstate t_smack t_proto t_pending].
   destruct (rpc_repl_tcp (rpc_new R_FRAG) ip port s) as [r' out]. cbn [bind].
   rewrite (rpc_flow E clk ci ip port Hip Hport). cbn [bind]. reflexivity.
 Qed.
@@ -81,6 +80,97 @@ Proof.
   f_equal. apply (rpc_outs_stream ip port (s :: rest) []).
 Qed.
 
+(* ---------- the identifying segment: any segmentation of the leading bytes ---------- *)
+From MS Require Import Smack Spec.C10 Proofs.SmackSeg Proofs.C10Sound Proofs.C10Seg Proofs.PendingBound.
+
+Lemma bind_assoc_cons {A} (X : res (list A)) (pre : list A) (x : A) :
+  (do outs <- (do o <- X; Ok (pre ++ o)); Ok (x :: outs)) = (do o <- X; Ok ((x :: pre) ++ o)).
+Proof. destruct X; reflexivity. Qed.
+
+Section Join.
+  Variables (E : env) (clk : clock) (ci : cinfo).
+  Let t := e_proto_tbl E.
+  Hypothesis Hok : smack_ok t = true.
+  Hypothesis Hsz : sm_rows t <= TWO24.
+  Hypothesis H0 : 0 < sm_rows t.
+  Hypothesis H1 : 0 < sm_match_limit t.
+
+  (* while the stream completes no signature: bare ACKs, and the control block carries the
+     matcher state of the one-shot search and the bytes kept *)
+  Lemma tcp_stream_unidentified more : forall pre tc st' n,
+    t_proto tc = PROTO_NONE -> plain t (t_smack tc) ->
+    search_next t (t_smack tc) (concat pre) = (None, st', n) ->
+    tcp_stream E clk ci tc (pre ++ more) =
+    do outs <- tcp_stream E clk ci {| t_smack := st'; t_proto := PROTO_NONE; t_pstate := t_pstate tc;
+                                       t_pending := pending_after (t_pending tc) pre |} more;
+    Ok (quiet (length pre) ++ outs).
+  Proof.
+    unfold quiet.
+    induction pre as [|a r IH]; intros tc st' n Hp Hpl H; cbn [concat app length repeat pending_after] in *.
+    - destruct Hpl as [Hr Hl]. rewrite search_next_row in H by lia. cbn [inner_match] in H. cbv zeta in H.
+      rewrite (sm_count_lo t _ Hok Hr Hl) in H. change (0 =? 0) with true in H. cbv iota in H.
+      injection H as <- _. destruct tc as [s p ps pe]. cbn [t_smack t_proto t_pstate t_pending] in *. subst p.
+      destruct (tcp_stream _ _ _ _ more); reflexivity.
+    - rewrite (search_next_split t Hok Hsz _ a (concat r) Hpl) in H.
+      destruct (search_next t (t_smack tc) a) as [[[i|] st1] n1] eqn:Ha; [discriminate|].
+      fold t in Ha. cbn [tcp_stream].
+      rewrite (proto_repl_tcp_unidentified E clk ci tc a st1 n1 Hp Ha). cbn [bind].
+      destruct (search_none_plain t Hok Hsz _ a st1 n1 Hpl Ha) as [Hpl1 _].
+      destruct (search_next t st1 (concat r)) as [[id2 st2] n2] eqn:Hr.
+      injection H as -> -> _.
+      rewrite (IH {| t_smack := st1; t_proto := PROTO_NONE; t_pstate := t_pstate tc;
+                     t_pending := pending_step (t_pending tc) a |} st' n2 eq_refl Hpl1 Hr).
+      cbn [t_pstate t_pending]. apply bind_assoc_cons.
+  Qed.
+
+  (* the segment that completes a signature starts the handler on the whole stream so far:
+     from there on the flow is the flow in which these bytes came in one segment *)
+  Theorem stream_join pre d rest i :
+    lenN (concat pre) <= PENDING_MAX ->
+    tcp_first_id E (concat pre) = None -> tcp_first_id E (concat pre ++ d) = Some i ->
+    tcp_stream E clk ci tcb_new (pre ++ d :: rest) =
+    do outs <- tcp_stream E clk ci tcb_new ((concat pre ++ d) :: rest);
+    Ok (quiet (length pre) ++ outs).
+  Proof.
+    intros Hlen Hn Hs. unfold tcp_first_id in Hn, Hs. fold t in Hn, Hs.
+    assert (Hpl : plain t BASE_STATE) by (split; assumption).
+    destruct (search_next t BASE_STATE (concat pre)) as [[id1 st1] n1] eqn:Hs1. subst id1.
+    rewrite (tcp_stream_unidentified (d :: rest) pre tcb_new st1 n1 eq_refl Hpl Hs1).
+    cbn [tcb_new t_pstate t_pending]. rewrite pending_after_small by (cbn; exact Hlen). cbn [app].
+    rewrite (search_next_split t Hok Hsz BASE_STATE (concat pre) d Hpl), Hs1 in Hs.
+    destruct (search_none_plain t Hok Hsz _ _ _ _ Hpl Hs1) as [Hpl1 _].
+    destruct (search_next t st1 d) as [[id2 st2] n2] eqn:Hd. subst id2.
+    assert (Hsa : search_next t BASE_STATE (concat pre ++ d) = (Some i, st2, (length (concat pre) + n2)%nat)).
+    { rewrite (search_next_split t Hok Hsz BASE_STATE (concat pre) d Hpl), Hs1, Hd. reflexivity. }
+    cbn [tcp_stream].
+    rewrite (proto_repl_tcp_identified E clk ci
+               {| t_smack := st1; t_proto := PROTO_NONE; t_pstate := None; t_pending := concat pre |}
+               d i st2 n2 eq_refl Hd).
+    rewrite (proto_repl_tcp_identified E clk ci tcb_new (concat pre ++ d) i st2 _ eq_refl Hsa).
+    cbn [tcb_new t_pstate t_pending app]. cbv zeta.
+    destruct (dispatch E clk ci i _ (concat pre ++ d)) as [[[c2 t2] o]|s]; cbn [bind]; [|reflexivity].
+    destruct (tcp_stream E clk ci _ rest); reflexivity.
+  Qed.
+
+  (* a stream that is identified is identified in one of its segments *)
+  Lemma ident_decompose i : forall segs acc,
+    tcp_first_id E acc = None -> tcp_first_id E (acc ++ concat segs) = Some i ->
+    exists pre d rest, segs = pre ++ d :: rest /\
+      tcp_first_id E (acc ++ concat pre) = None /\ tcp_first_id E (acc ++ concat pre ++ d) = Some i.
+  Proof.
+    assert (Hpl : plain t BASE_STATE) by (split; assumption).
+    induction segs as [|a r IH]; intros acc Hn Hs; cbn [concat] in Hs.
+    - rewrite app_nil_r, Hn in Hs. discriminate.
+    - destruct (tcp_first_id E (acc ++ a)) as [j|] eqn:Ha.
+      + exists [], a, r. cbn [app concat]. rewrite app_nil_r. split; [reflexivity|]. split; [exact Hn|]. rewrite Ha.
+        rewrite app_assoc in Hs. unfold tcp_first_id in Ha, Hs. fold t in Ha, Hs.
+        rewrite (search_next_split t Hok Hsz BASE_STATE (acc ++ a) (concat r) Hpl) in Hs.
+        destruct (search_next t BASE_STATE (acc ++ a)) as [[id1 st1] n1]. subst id1. cbv beta iota in Hs. exact Hs.
+      + rewrite app_assoc in Hs. destruct (IH (acc ++ a) Ha Hs) as (pre & d & rest & -> & Hn' & Hs').
+        exists (a :: pre), d, rest. cbn [app concat]. rewrite <- !app_assoc in *. auto.
+  Qed.
+End Join.
+
 (* ---------- HTTP over TCP ---------- *)
 From MS Require Import Spec.EnvOk Spec.C11http Proofs.HttpFold Proofs.HttpParse.
 
@@ -94,16 +184,15 @@ Fixpoint http_outs (E : env) (clk : clock) (h : http_st) (segs : list bytes) : r
     Ok (snd x :: l)
   end.
 
-Lemma http_flow E clk ci : forall segs st h,
-  tcp_stream E clk ci {| t_smack := st; t_proto := PROTO_HTTP; t_pstate := Some (PHttp h) |} segs
+Lemma http_flow E clk ci : forall segs st h pe,
+  tcp_stream E clk ci {| t_smack := st; t_proto := PROTO_HTTP; t_pstate := Some (PHttp h); t_pending := pe |} segs
   = http_outs E clk h segs.
 Proof.
-  induction segs as [|d rest IH]; intros st h; [reflexivity|].
+  induction segs as [|d rest IH]; intros st h pe; [reflexivity|].
   cbn [tcp_stream http_outs].
-  unfold proto_repl_tcp at 1. cbn [t_proto].
-  change (PROTO_HTTP =? PROTO_NONE) with false. cbv iota.
+  unfold proto_repl_tcp at 1. rewrite tcp_identify_sticky by (cbn [t_proto]; discriminate).
   unfold dispatch. cbn [t_proto]. change (PROTO_HTTP =? PROTO_HTTP) with true. cbv iota.
-  cbn [t_pstate t_smack].
+  cbn [t_pstate t_smack t_pending].
   destruct (http_repl _ _ _ _ h d) as [[h' o]|s]; cbn [bind fst snd]; [|reflexivity].
   rewrite IH. destruct (http_outs E clk h' rest); reflexivity.
 Qed.
@@ -113,11 +202,11 @@ Theorem http_stream E clk ci d rest :
   tcp_stream E clk ci tcb_new (d :: rest) = http_outs E clk http_new (d :: rest).
 Proof.
   intros Hid. cbn [tcp_stream http_outs].
-  unfold proto_repl_tcp at 1. change (t_proto tcb_new =? PROTO_NONE) with true. cbv iota.
-  unfold tcp_first_id in Hid. change (t_smack tcb_new) with BASE_STATE.
-  destruct (search_next (e_proto_tbl E) BASE_STATE d) as [[id st] n]. subst id. cbn [id_of t_proto t_pstate].
+  rewrite proto_repl_tcp_first.
+  unfold tcp_first_id in Hid.
+  destruct (search_next (e_proto_tbl E) BASE_STATE d) as [[id st] n]. subst id. cbv zeta. cbn [id_of t_proto t_pstate].
   unfold dispatch. change (PROTO_HTTP =? PROTO_HTTP) with true. cbv iota.
-  unfold tcb_new. cbn [t_pstate t_smack t_proto].
+  cbn [t_pstate t_smack t_proto t_pending].
   destruct (http_repl _ _ _ _ http_new d) as [[h' o]|s]; cbn [bind fst snd]; [|reflexivity].
   rewrite (http_flow E clk ci). destruct (http_outs E clk h' rest); reflexivity.
 Qed.
@@ -208,3 +297,128 @@ Section HttpStream.
     exists l, outs. repeat split; assumption.
   Qed.
 End HttpStream.
+
+(* ================= any segmentation: the first segment need not hold the signature ================= *)
+Lemma proto_tbl_ok_parts E : proto_tbl_ok E = true ->
+  smack_ok (e_proto_tbl E) = true /\ sm_rows (e_proto_tbl E) <= TWO24 /\ 0 < sm_rows (e_proto_tbl E) /\
+  0 < sm_match_limit (e_proto_tbl E) /\ ident_bound_ok (e_proto_tbl E) SIG_SPAN = true.
+Proof.
+  unfold proto_tbl_ok. cbv zeta. rewrite !andb_true_iff, N.leb_le, !N.ltb_lt. tauto.
+Qed.
+
+Lemma concat_join (pre : list bytes) (d : bytes) (rest : list bytes) :
+  concat (pre ++ d :: rest) = concat ((concat pre ++ d) :: rest).
+Proof. rewrite concat_app. cbn [concat]. rewrite app_assoc. reflexivity. Qed.
+
+(* an identified stream is identified in one of its segments, within its first SIG_SPAN
+   bytes: everything received before is still in the prefix buffer *)
+Lemma ident_split E segs i : proto_tbl_ok E = true -> bytes_ok (concat segs) = true ->
+  tcp_first_id E (concat segs) = Some i ->
+  exists pre d rest, segs = pre ++ d :: rest /\
+    tcp_first_id E (concat pre) = None /\ tcp_first_id E (concat pre ++ d) = Some i /\
+    (length (concat pre) < SIG_SPAN)%nat.
+Proof.
+  intros Ht Hb Hs. destruct (proto_tbl_ok_parts E Ht) as (Hok & Hsz & H0 & H1 & Hbd).
+  assert (Hnil : tcp_first_id E [] = None).
+  { change (tcp_first_id E []) with (tcp_first_id_tbl (e_proto_tbl E) []).
+    rewrite (tcp_id_m_run _ Hok Hsz [] H0 H1). reflexivity. }
+  destruct (ident_decompose E Hok Hsz H0 H1 i segs [] Hnil Hs) as (pre & d & rest & -> & Hn & Hsd).
+  cbn [app] in Hn, Hsd. exists pre, d, rest. repeat split; try assumption.
+  apply (ident_within (e_proto_tbl E) SIG_SPAN Hok Hsz H0 H1 Hbd (concat pre) d i); try assumption.
+  rewrite concat_app in Hb. cbn [concat] in Hb. rewrite app_assoc, bytes_ok_app in Hb.
+  apply andb_true_iff in Hb. exact (proj1 Hb).
+Qed.
+
+Lemma span_pending (p : bytes) : (length p < SIG_SPAN)%nat -> lenN p <= PENDING_MAX.
+Proof. unfold SIG_SPAN, PENDING_MAX, lenN. lia. Qed.
+
+(* ---------- ONC-RPC ---------- *)
+(* no message is complete within its first 36 bytes (fixed-size fields up to the credentials) *)
+Lemma rpc_quiet_short p : (length p < 36)%nat -> r_state (rpc_parse (rpc_new R_FRAG) p) <> R_END.
+Proof.
+  do 36 (destruct p as [|? p]; [intros _; vm_compute; discriminate|]).
+  cbn [length]. lia.
+Qed.
+
+Lemma rpc_stream_ref_skip ip port d rest : forall pre acc,
+  (length (acc ++ concat pre) < 36)%nat ->
+  rpc_stream_ref ip port acc (pre ++ d :: rest) =
+  quiet (length pre) ++ rpc_stream_ref ip port (acc ++ concat pre) (d :: rest).
+Proof.
+  unfold quiet. induction pre as [|x pre IH]; intros acc Hl; cbn [concat app length repeat] in *.
+  - rewrite app_nil_r. reflexivity.
+  - cbn [rpc_stream_ref].
+    assert (Hq : r_state (rpc_parse (rpc_new R_FRAG) (acc ++ x)) <> R_END).
+    { apply rpc_quiet_short. rewrite !app_length in *. lia. }
+    unfold rpc_expected, rpc_repl_tcp.
+    destruct (r_state (rpc_parse (rpc_new R_FRAG) (acc ++ x)) =? R_END) eqn:Eq; [apply N.eqb_eq in Eq; contradiction|].
+    cbn [snd]. rewrite (IH (acc ++ x)) by (rewrite <- app_assoc; exact Hl). rewrite <- app_assoc. reflexivity.
+Qed.
+
+(* every segment, up to and including the one that completes the first message, is answered
+   with rpc_expected(stream prefix ending with it), whatever the cuts -- also inside the
+   protocol signature *)
+Theorem rpc_stream_any E clk ci ip port segs :
+  proto_tbl_ok E = true ->
+  ci_ip_dst ci = Some ip -> ci_port_dst ci = Some port ->
+  bytes_ok (concat segs) = true -> tcp_first_id E (concat segs) = Some PROTO_RPC_TCP ->
+  tcp_stream E clk ci tcb_new segs = Ok (rpc_stream_ref ip port [] segs).
+Proof.
+  intros Ht Hip Hport Hb Hs. destruct (proto_tbl_ok_parts E Ht) as (Hok & Hsz & H0 & H1 & Hbd).
+  destruct (ident_split E segs _ Ht Hb Hs) as (pre & d & rest & -> & Hn & Hsd & Hlen).
+  rewrite (stream_join E clk ci Hok Hsz H0 H1 pre d rest _ (span_pending _ Hlen) Hn Hsd).
+  match goal with |- context [tcp_stream ?a ?b ?c ?e ?f] =>
+    replace (tcp_stream a b c e f) with (Ok (rpc_stream_ref ip port [] ((concat pre ++ d) :: rest)))
+      by (symmetry; exact (rpc_stream_segmentation E clk ci ip port _ rest Hip Hport Hsd)) end.
+  cbn [bind].
+  rewrite (rpc_stream_ref_skip ip port d rest pre []) by (cbn [app]; unfold SIG_SPAN in Hlen; lia).
+  reflexivity.
+Qed.
+
+(* ---------- HTTP ---------- *)
+Theorem http_stream_any E clk ci segs :
+  proto_tbl_ok E = true ->
+  bytes_ok (concat segs) = true -> tcp_first_id E (concat segs) = Some PROTO_HTTP ->
+  exists pre d rest, segs = pre ++ d :: rest /\
+    tcp_first_id E (concat pre) = None /\ tcp_first_id E (concat pre ++ d) = Some PROTO_HTTP /\
+    (length (concat pre) < SIG_SPAN)%nat /\
+    tcp_stream E clk ci tcb_new segs =
+    do outs <- http_outs E clk http_new ((concat pre ++ d) :: rest); Ok (quiet (length pre) ++ outs).
+Proof.
+  intros Ht Hb Hs. destruct (proto_tbl_ok_parts E Ht) as (Hok & Hsz & H0 & H1 & Hbd).
+  destruct (ident_split E segs _ Ht Hb Hs) as (pre & d & rest & -> & Hn & Hsd & Hlen).
+  exists pre, d, rest. repeat split; try assumption.
+  rewrite (stream_join E clk ci Hok Hsz H0 H1 pre d rest _ (span_pending _ Hlen) Hn Hsd).
+  match goal with |- context [tcp_stream ?a ?b ?c ?e ?f] =>
+    replace (tcp_stream a b c e f) with (http_outs E clk http_new ((concat pre ++ d) :: rest))
+      by (symmetry; exact (http_stream E clk ci _ rest Hsd)) end.
+  reflexivity.
+Qed.
+
+Lemma prefixes_at_join acc d rest : prefixes_at [] ((acc ++ d) :: rest) = prefixes_at acc (d :: rest).
+Proof. reflexivity. Qed.
+
+(* the stream-level statement for any list of segments: the segments before the one in which
+   the signature is completed (within the first SIG_SPAN bytes) get a bare ACK; from that
+   segment on, which segment carries the 401 is decided by ONE whole-buffer parse of the
+   stream prefix at each segment boundary -- a function of the stream and of the boundaries *)
+Theorem http_stream_segmentation_any E clk ci segs :
+  proto_tbl_ok E = true -> smack_ok (e_http_tbl E) = true -> http_tbl_ok (e_http_tbl E) = true ->
+  bytes_ok (concat segs) = true -> tcp_first_id E (concat segs) = Some PROTO_HTTP ->
+  exists pre d rest l outs, segs = pre ++ d :: rest /\
+    tcp_first_id E (concat pre) = None /\ tcp_first_id E (concat pre ++ d) = Some PROTO_HTTP /\
+    (length (concat pre) < SIG_SPAN)%nat /\
+    Forall2 (fun upto a => http_answers_at (e_http_tbl E) http_new upto = Ok a)
+            (prefixes_at (concat pre) (d :: rest)) l /\
+    tcp_stream E clk ci tcb_new segs = Ok (quiet (length pre) ++ outs) /\ length outs = length l /\
+    forall j, (forall i, (i < j)%nat -> nth i l false = false) ->
+              nth j outs None = (if nth j l false then Some (http_resp_of E clk) else None).
+Proof.
+  intros Ht Hhok Hhtbl Hb Hs.
+  destruct (http_stream_any E clk ci segs Ht Hb Hs) as (pre & d & rest & -> & Hn & Hsd & Hlen & Hst).
+  rewrite concat_join in Hb.
+  destruct (http_stream_segmentation E clk Hhok Hhtbl ((concat pre ++ d) :: rest) Hb)
+    as (l & outs & Hall & Ho & Hl & Hj).
+  exists pre, d, rest, l, outs. rewrite prefixes_at_join in Hall.
+  repeat split; try assumption. rewrite Hst, Ho. reflexivity.
+Qed.
